@@ -199,26 +199,26 @@ def exHdrCanon : Bytes := exUnsigned ++ [1, 2, 2, 1] ++ [1, 2, 0xaa, 0xbb]
 /-- bookkeeper count 2^63 (`int(n) < 0`), then signature count 0 -/
 def exHdrWrap : Bytes := exUnsigned ++ [0xff, 0, 0, 0, 0, 0, 0, 0, 0x80] ++ [0]
 
-theorem exAlt_eval : (match parseHeader .asShipped exKeys ⟨exHdrAlt, 0⟩ with
+theorem C20_witness_alt_eval : (match parseHeader .asShipped exKeys ⟨exHdrAlt, 0⟩ with
       | .ok h s' => serHeader h != consumed ⟨exHdrAlt, 0⟩ s' && s'.off == exHdrAlt.length && h.bookkeepers == [[2, 1]]
       | _ => false) = true := by decide +kernel
 
-theorem exWrap_eval : (match parseHeader .asShipped exKeys ⟨exHdrWrap, 0⟩ with
+theorem C20_witness_count_eval : (match parseHeader .asShipped exKeys ⟨exHdrWrap, 0⟩ with
       | .ok h s' => serHeader h != consumed ⟨exHdrWrap, 0⟩ s' && s'.off == exHdrWrap.length && h.bookkeepers == []
       | _ => false) = true := by decide +kernel
 
-theorem exAlt_wf : (⟨exHdrAlt, 0⟩ : Src).wf := ⟨Nat.zero_le _, by decide +kernel⟩
-theorem exWrap_wf : (⟨exHdrWrap, 0⟩ : Src).wf := ⟨Nat.zero_le _, by decide +kernel⟩
+theorem C20_witness_alt_wf : (⟨exHdrAlt, 0⟩ : Src).wf := ⟨Nat.zero_le _, by decide +kernel⟩
+theorem C20_witness_count_wf : (⟨exHdrWrap, 0⟩ : Src).wf := ⟨Nat.zero_le _, by decide +kernel⟩
 
 /-- **Counterexample 1** (`noncanonical-bookkeeper-key-reencode`): a header with a bookkeeper blob in an alternative
 encoding is accepted and re-encodes to different bytes. -/
 theorem C20_asShipped_counterexample : ¬ C20_full_statement .asShipped := by
   intro hfull
-  have key := exAlt_eval
+  have key := C20_witness_alt_eval
   cases hp : parseHeader .asShipped exKeys ⟨exHdrAlt, 0⟩ with
   | ok h s' =>
     rw [hp] at key
-    have := hfull exKeys ⟨exHdrAlt, 0⟩ h s' exAlt_wf hp
+    have := hfull exKeys ⟨exHdrAlt, 0⟩ h s' C20_witness_alt_wf hp
     simp [this] at key
   | err e => rw [hp] at key; simp at key
   | panic => rw [hp] at key; simp at key
@@ -229,11 +229,11 @@ theorem C20_asShipped_counterexample_count :
     ¬ (∀ (K : Keys) (s : Src) (h : Header) (s' : Src), s.wf → parseHeader .asShipped K s = .ok h s' →
         h.bookkeepers = h.bkRaw → serHeader h = consumed s s') := by
   intro hfull
-  have key := exWrap_eval
+  have key := C20_witness_count_eval
   cases hp : parseHeader .asShipped exKeys ⟨exHdrWrap, 0⟩ with
   | ok h s' =>
     rw [hp] at key
-    obtain ⟨_, post⟩ := header_post_of_ok (s := ⟨exHdrWrap, 0⟩) exWrap_wf hp
+    obtain ⟨_, post⟩ := header_post_of_ok (s := ⟨exHdrWrap, 0⟩) C20_witness_count_wf hp
     have hb : h.bookkeepers = [] := by
       simp only [Bool.and_eq_true, beq_iff_eq] at key
       exact key.2
@@ -241,7 +241,7 @@ theorem C20_asShipped_counterexample_count :
       have := post.2.2.2.2.1
       rw [hb] at this
       exact List.eq_nil_of_length_eq_zero this.symm
-    have := hfull exKeys ⟨exHdrWrap, 0⟩ h s' exWrap_wf hp (by rw [hb, hraw])
+    have := hfull exKeys ⟨exHdrWrap, 0⟩ h s' C20_witness_count_wf hp (by rw [hb, hraw])
     simp [this] at key
   | err e => rw [hp] at key; simp at key
   | panic => rw [hp] at key; simp at key
